@@ -70,8 +70,15 @@ def run(ck):
         cats.setdefault(c["m"], {}).setdefault(category(c), 0)
         cats[c["m"]][category(c)] += 1
     ck.setcov("calls_per_method_and_category", cats)
-    if not ck.replay:
-        # anti-vacuity (exit 2, never a verdict)
+    findings = rpc_util.judge(ck, "TraceObjectRPC", "TraceObjectRPC_c29.cfg", "TraceObjectRPC_strict.cfg", calls, tag="c29")
+    for f in findings:
+        c = f["call"]
+        ck.violation("C29: %s request of class [%s]: invariant %s false after event #%d %s; call events: %s" % (
+            c["m"], category(c), f["invariant"], f["event_index"], json.dumps(f["event"]), json.dumps(c["events"])),
+            {"calls": [{"m": c["m"], "cls": c["cls"]}], "events": c["events"], "raw": c.get("raw"), "invariant": f["invariant"], "tlc": f["tlc"]})
+
+    if not ck.replay and not findings:
+        # anti-vacuity (exit 2, never a verdict); after the judgement: a change that breaks the property must not be masked by it
         need = {"valid", "signature:none", "signature:bad", "signature:forged", "body:missing", "token:expired", "token:badsig", "token:bearer_expired",
                 "basic_acl", "eacl_request", "maintenance"}
         for m in CLIENT_OPS:
@@ -99,20 +106,13 @@ def run(ck):
         if not exempt or any(c["events"][-1]["code"] >= 1024 or not any(e["ev"] == "Eff" for e in c["events"]) for c in exempt):
             raise vkit.Infra("the fake mTLS transport is not recognised as an authenticated peer (unsigned TTL=1 request of a container node is not served)")
         shapes = {}
-        for c in hdr_deny:
+        for c in [c for c in calls if category(c) == "eacl_header"]:
             shapes.setdefault(c["m"], set()).add((c["cls"]["flags"], c["cls"]["obj"]))
         ck.setcov("header_time_denial_shapes", {m: sorted("%s@%s" % (f or "plain", o) for f, o in v) for m, v in shapes.items()})
         for f in ("payload_only", "raw", "range", "xrange", "payload_only+range"):
             for o in ("remote", "late"):
                 if (f, o) not in shapes.get("Get", ()):
                     raise vkit.Infra("header-time denial not exercised for GET flags=%s object=%s" % (f, o))
-
-    findings = rpc_util.judge(ck, "TraceObjectRPC", "TraceObjectRPC_c29.cfg", "TraceObjectRPC_strict.cfg", calls, tag="c29")
-    for f in findings:
-        c = f["call"]
-        ck.violation("C29: %s request of class [%s]: invariant %s false after event #%d %s; call events: %s" % (
-            c["m"], category(c), f["invariant"], f["event_index"], json.dumps(f["event"]), json.dumps(c["events"])),
-            {"calls": [{"m": c["m"], "cls": c["cls"]}], "events": c["events"], "raw": c.get("raw"), "invariant": f["invariant"], "tlc": f["tlc"]})
 
     ck.setcov("traces_validated_against_impl", len(calls))
     ck.setcov("evaluations", len(calls))
